@@ -70,8 +70,8 @@ fn kar(r: &mut Rng, n: usize, depth: usize) -> Vec<u64> {
     }
 }
 
-/// (a, b) of al and bl limbs.  `fitp` percent of the cases are shaped so that the product fits al limbs,
-/// a few sit exactly on the overflow boundary.
+/// (a, b) of al and bl limbs.  A share of the cases is shaped so that the product fits al limbs, a few sit
+/// exactly on the overflow boundary.
 fn mul_case(r: &mut Rng, al: usize, bl: usize) -> (Vec<u64>, Vec<u64>) {
     let depth = 4;
     let (mut a, mut b) = match r.below(20) {
@@ -81,15 +81,18 @@ fn mul_case(r: &mut Rng, al: usize, bl: usize) -> (Vec<u64>, Vec<u64>) {
         3 if al == bl => { let x = kar(r, al, depth); (x.clone(), x) } // a = b: multiply must equal square
         _ => (kar(r, al, depth), kar(r, bl, depth)),
     };
+    // shaping towards products that fit (for the checked / saturating / panicking forms); rarer at the
+    // Karatsuba widths, where it would bias the halves towards x1 = 0, y1 = 0
+    let (pf, pb) = if al >= 16 { (12, 18) } else { (30, 40) };
     match r.below(100) {
-        0..=29 => {
+        x if x < pf => {
             // product certainly fits al limbs: ka + kb <= al significant limbs
             let ka = r.range(0, al);
             let kb = (al - ka).min(bl);
             for i in ka..al { a[i] = 0; }
             for i in kb..bl { b[i] = 0; }
         }
-        30..=39 => {
+        x if x < pb => {
             // bit-level boundary: a about 2^i, b about 2^(64 al - i): product just below / at / above 2^(64 al)
             let bits = 64 * al;
             let lo_i = bits.saturating_sub(64 * bl).max(0);
@@ -531,7 +534,7 @@ fn main() {
         fixed::<16, 32>(&mut cx, 140 * s);
         fixed::<32, 64>(&mut cx, 120 * s);
         fixed::<64, 128>(&mut cx, 80 * s);
-        fixed::<128, 256>(&mut cx, 40 * s);
+        fixed::<128, 256>(&mut cx, 60 * s);
     }
     if cx.want("mixed") {
         mixed::<1, 2>(&mut cx, 40 * s);
